@@ -283,7 +283,7 @@ func IsCompactDateShape(tm time.Time) bool {
 }
 
 var nodeTypes = map[reflect.Type]bool{
-	T(Node{}): true, T(FNode{}): true, T(Ping{}): true, T(Pong{}): true, T(ENode{}): true, T(SelfAny{}): true, T(MutA{}): true, T(MutB{}): true,
+	T(Node{}): true, T(FNode{}): true, T(Ping{}): true, T(Pong{}): true, T(ENode{}): true, T(SelfAny{}): true, T(MutA{}): true, T(MutB{}): true, T(Block{}): true,
 }
 
 // Value generates a value of static type typ.
